@@ -62,7 +62,7 @@ class Validate:
 
   @staticmethod
   def _is_valid_custom_tagname(tagname):
-    return (re.match(r"^[A-Za-z][A-Za-z0-9]$", tagname))
+    return (re.match(r"^[A-Za-z][A-Za-z0-9]\Z", tagname))
 
   def _validate_record_type_specific_info(self):
     pass
